@@ -79,7 +79,7 @@ def _winit(modname):
 
 def run_one(mod, case):
     """Run one case under the CPU cap; never raises."""
-    signal.setitimer(signal.ITIMER_REAL, CASE_CAP_S)
+    signal.setitimer(signal.ITIMER_REAL, getattr(mod, "META", {}).get("case_cap_s", CASE_CAP_S))
     try:
         r = mod.run_case(case)
     except CaseTimeout:
@@ -213,7 +213,7 @@ def main(modname, tier, collect=None):
 
     shards = list(mod.shards(tier))
     nproc = int(os.environ.get("VERIF_PROCS", "0") or 0) or min(16, os.cpu_count() or 1)
-    nproc = max(1, min(nproc, len(shards)))
+    nproc = max(1, min(nproc, len(shards), getattr(mod, "META", {}).get("max_procs", 64)))
     ctx = mp.get_context("fork")
     aggs = []
     with ctx.Pool(nproc, initializer=_winit, initargs=(modname,)) as pool:
